@@ -34,6 +34,7 @@ def run(ctx) -> None:
     r9_no_dunder_comparisons(ctx)
     r10_field_name_tracking(ctx)
     r11_negation_per_name(ctx)
+    r12_field_name_condition_tables(ctx)
 
 
 # ------------------------------------------------------------------------------------------ R1
@@ -623,3 +624,59 @@ def r11_negation_per_name(ctx) -> None:
     if n < 2:
         raise AnalysisError("C13.R11: negation sites not found")
     r.floor("C13.R11", 2)
+
+
+def r12_field_name_condition_tables(ctx) -> None:
+    """Field name conditions, interpreted (sa.tabulate; the stdlib `re` is the only library): include/exclude in both modes
+    hold for exactly the names one of their patterns denotes, and the item-level form asks the per-name form about the
+    item's field whatever it is — also about the missing field name (None) of a keyword item."""
+    import re as _re
+    from ..tabulate import Interp, Raised
+    r, prog = ctx.r, ctx.prog
+    r.rule("C13.R12", "field name conditions decide per name: include_fields/exclude_fields (plain and re mode, several patterns with groups and back-references) interpreted on sample names agree with 'some pattern matches'; match_detection_item_field passes the item's field — None for keyword items — to match_field_name unchanged")
+    FQ = "sigma.processing.conditions.fields.IncludeFieldCondition"
+    pi, mf = prog.func(FQ + ".__post_init__"), prog.func(FQ + ".match_field_name")
+    err = type("SigmaConfigurationError", (Exception,), {})
+    bad = []
+    n = 0
+    for mode, fields in (("plain", ["src_ip", "user.user"]), ("re", ["^(src|dst)_ip$", r"^(\w+)\.\1$"]), ("re", [r"^(a)(b)\2$", r"^(x)-\1$"]), ("re", ["^proc"])):
+        me = type("Cond", (), {})()
+        me.fields, me.mode, me.patterns = fields, mode, []
+        try:
+            Interp({"self": me, "re": _re, "SigmaConfigurationError": err}, max_steps=2000).call(pi.node.body)
+        except Raised as ex:
+            bad.append(f"mode {mode} {fields}: __post_init__ raises {ex}")
+            continue
+        for name in (None, "src_ip", "dst_ip", "xsrc_ip", "user.user", "user.name", "abb", "aba", "x-x", "x-y", "process", "other"):
+            n += 1
+            try:
+                got = bool(Interp({"self": me, "field": name, "re": _re}, max_steps=2000).call(mf.node.body))
+            except Raised as ex:
+                bad.append(f"mode {mode} {fields}, name {name!r}: raises {ex}")
+                continue
+            want = False if name is None else (name in fields if mode == "plain" else any(_re.compile(p_).match(name) for p_ in fields))
+            if got != want:
+                bad.append(f"mode {mode} {fields}, name {name!r}: {got} instead of {want}")
+    if bad:
+        r.violation("C13.R12", FQ, f"include_fields table: {bad[0]}", f"{len(bad)} of {n} interpreted cases deviate: each pattern is an alternative of its own — merged into one expression its groups are renumbered, so a back-reference in a later pattern refers to a group of an earlier one and that alternative never matches", pi.loc)
+    else:
+        r.ok("C13.R12", FQ, f"{n} cases (plain / re, groups and back-references): holds iff one pattern denotes the name", pi.loc)
+    g = prog.func("sigma.processing.conditions.base.FieldNameProcessingCondition.match_detection_item_field")
+    wrong = []
+    for fld, per_name in ((None, True), (None, False), ("f", True), ("f", False)):
+        me = type("Cond", (), {})()
+        seen = []
+        me.match_field_name = lambda x, _s=seen, _v=per_name: (_s.append(x), _v)[1]
+        item = type("Item", (), {"field": fld})()
+        try:
+            got = bool(Interp({"self": me, "detection_item": item}, max_steps=200).call(g.node.body))
+        except Raised as ex:
+            wrong.append(f"field {fld!r}: raises {ex}")
+            continue
+        if got != per_name:
+            wrong.append(f"field {fld!r}, per-name answer {per_name}: item-level answer {got}")
+    if wrong:
+        r.violation("C13.R12", g.qual, f"item-level form: {wrong[0]}", "the detection item gate answers differently from the per-name gate for the item's own field: for a keyword item (no field name) exclude_fields and processing-state conditions hold per name but the item is rejected before, so a value transformation conditioned on them is never applied to keywords", g.loc)
+    else:
+        r.ok("C13.R12", g.qual, "item-level form = per-name form on the item's field, None included", g.loc)
+    r.floor("C13.R12", 2)
